@@ -34,40 +34,30 @@
    directory name containing '=' is outside the model).  Spellings are the Clean()ed ones.
 
    Second part of the file: the specification objects of property C20 ([spec_files],
-   [spec_includes], [spec_mappings], [spec_requested]) — defined on the tree alone, without
+   [spec_includes], [scan_mappings], [spec_requested]) — defined on the tree alone, without
    the walk — so that observations of the real program can be judged by the very definitions
    the theorems of Props/C20.v are about.                                                     *)
 From Coq Require Import String List Bool Arith Ascii.
+From GT Require Export ProtoPrims.
 Import ListNotations.
 Local Open Scope string_scope.
 Local Open Scope list_scope.
 
 (* ------------------------------------------------------------------ file system *)
-Inductive node : Type :=
-| File (name : string) (has_go_package : bool) (is_regular : bool)
-| Dir (name : string) (children : list node).
-
-Definition node_name (n : node) : string :=
-  match n with File s _ _ => s | Dir s _ => s end.
-Definition is_dir (n : node) : bool :=
-  match n with Dir _ _ => true | File _ _ _ => false end.
-(* d.Type().IsRegular() *)
-Definition is_regular (n : node) : bool :=
-  match n with File _ _ r => r | Dir _ _ => false end.
+(* [node], [node_name], [is_dir], [is_regular], [find_child], [lookup]: ProtoPrims.v (shared with
+   the string-level model).  A file carries its content; what protoFileHasGoPackage decides of
+   it is the line scan [scan_go_package] of ProtoLex.v, what the property asks is
+   [declares_go_package]. *)
 Definition has_go_package (n : node) : bool :=
-  match n with File _ g _ => g | Dir _ _ => false end.
+  match n with File _ c _ => scan_go_package c | Dir _ _ => false end.
+Definition node_declares (n : node) : bool :=
+  match n with File _ c _ => declares_go_package c | Dir _ _ => false end.
 
-Definition path := list string.
 Inductive pspec : Type := PRel (segs : path) | PAbs (segs : path).
 
-Inductive result (A : Type) : Type := Ok (a : A) | Err.
-Arguments Ok {A} a.
-Arguments Err {A}.
-
-(* filepath.Ext(name) == ".proto"  <->  name ends with ".proto" *)
-Definition is_proto_name (s : string) : bool :=
-  let n := String.length s in
-  Nat.leb 6 n && String.eqb (substring (n - 6) 6 s) ".proto".
+(* filepath.Ext(d.Name()) == ".proto"  (literally; = "the name ends in .proto",
+   ProtoTieLib.has_suffix_proto_ext) *)
+Definition is_proto_name (s : string) : bool := String.eqb (fp_ext s) ".proto".
 
 Fixpoint path_eqb (a b : path) : bool :=
   match a, b with
@@ -83,12 +73,7 @@ Definition pspec_eqb (p q : pspec) : bool :=
   | _, _ => false
   end.
 
-(* filepath.Clean on a segment list: drop "" and ".", ".." pops *)
-Definition norm_step (acc : path) (s : string) : path :=
-  if String.eqb s "" || String.eqb s "." then acc
-  else if String.eqb s ".." then removelast acc
-  else acc ++ [s].
-Definition norm (p : path) : path := fold_left norm_step p [].
+(* filepath.Clean on a rooted segment list: [norm] of ProtoPath.v (drop "" and ".", ".." pops) *)
 
 (* filepath.Abs with working directory cwd *)
 Definition to_abs (cwd : path) (p : pspec) : path :=
@@ -119,33 +104,12 @@ Fixpoint rel (base p : path) : option path :=
 
 Definition dir_of (p : path) : path := removelast p.
 
-Definition join_slash (p : path) : string := String.concat "/" p.
-Definition render_rel (p : path) : string :=
-  match p with [] => "." | _ => join_slash p end.
-Definition render_abs (p : path) : string := "/" ++ join_slash p.
+(* filepath.Join(pkgPrefix, filepath.Dir(relPath)): the prefix is taken as typed (it need not be
+   Clean: "example.com/x/", "a//b", "./p", "" are all joined and cleaned by Join) *)
+Definition join_pkg (pre : string) (reldir : path) : string := fp_join pre (render_rel reldir).
+
 Definition render_pspec (p : pspec) : string :=
   match p with PRel s => render_rel s | PAbs s => render_abs s end.
-
-Fixpoint find_child (s : string) (l : list node) : option node :=
-  match l with
-  | [] => None
-  | c :: r => if String.eqb (node_name c) s then Some c else find_child s r
-  end.
-
-(* os.Lstat / os.Open of an absolute path, starting from the node of "/" *)
-Fixpoint lookup (n : node) (p : path) : option node :=
-  match p with
-  | [] => Some n
-  | s :: r =>
-      match n with
-      | Dir _ ch =>
-          match find_child s ch with
-          | Some c => lookup c r
-          | None => None
-          end
-      | File _ _ _ => None
-      end
-  end.
 
 (* a file system: sibling names distinct, none of them "", "." or "..", hereditarily
    (executable form of the well-formedness hypothesis of the theorems) *)
@@ -172,7 +136,7 @@ Record config : Type := {
   c_recurse : bool;
   c_vt : bool;
   c_grpc : bool;
-  c_includes : list (pspec * option path)      (* -include dir[=prefix] *)
+  c_includes : list (pspec * option string)    (* -include dir[=prefix], prefix as typed *)
 }.
 
 Inductive plugin : Type := PGo | PVt | PGrpc.
@@ -281,14 +245,14 @@ Section Model.
 
   (* the package of one mapping: explicit prefix joined with the relative directory, else
      the Go package of the file's directory *)
-  Definition mapping_pkg (prefix : option path) (relp absp : path) : result string :=
+  Definition mapping_pkg (prefix : option string) (relp absp : path) : result string :=
     match prefix with
-    | Some pre => Ok (render_rel (pre ++ dir_of relp))
+    | Some pre => Ok (join_pkg pre (dir_of relp))
     | None => pkg_of (dir_of absp)
     end.
 
   (* generate.go:68-110 — the loop over the protos found below one include path [a] *)
-  Fixpoint include_files (cfg : config) (a : path) (prefix : option path) (ps : list pspec)
+  Fixpoint include_files (cfg : config) (a : path) (prefix : option string) (ps : list pspec)
     : result (list arg) :=
     match ps with
     | [] => Ok []
@@ -314,7 +278,7 @@ Section Model.
     end.
 
   (* generate.go:57-111 — one iteration of the loop over includePaths *)
-  Definition include_args (cfg : config) (inc : pspec * option path) : result (list arg) :=
+  Definition include_args (cfg : config) (inc : pspec * option string) : result (list arg) :=
     let a := to_abs (c_cwd cfg) (fst inc) in
     match find_protos cfg (PAbs a) true with
     | Err => Err
@@ -325,7 +289,7 @@ Section Model.
         end
     end.
 
-  Fixpoint includes_args (cfg : config) (incs : list (pspec * option path)) : result (list arg) :=
+  Fixpoint includes_args (cfg : config) (incs : list (pspec * option string)) : result (list arg) :=
     match incs with
     | [] => Ok []
     | i :: r =>
@@ -339,7 +303,7 @@ Section Model.
         end
     end.
 
-  Definition include_paths (cfg : config) : list (pspec * option path) :=
+  Definition include_paths (cfg : config) : list (pspec * option string) :=
     (c_input cfg, None) :: c_includes cfg.
 
   (* Generate.Run: the argument vector handed to exec.Command, or an error before it *)
@@ -410,23 +374,41 @@ Section Model.
   Definition pkg_or_unknown (d : path) : string :=
     match pkg_of d with Ok s => s | Err => "<no package>" end.
 
-  (* the mappings one include path calls for *)
-  Definition spec_mappings_of (cfg : config) (inc : pspec * option path) : list (path * string) :=
+  (* the mappings one include path calls for, given a decider [gp] of "declares go_package" *)
+  Definition mappings_by (gp : node -> bool) (cfg : config) (inc : pspec * option string)
+    : list (path * string) :=
     let a := to_abs (c_cwd cfg) (fst inc) in
     match lookup (c_root cfg) a with
     | Some n =>
         map (fun rx =>
                (fst rx,
                 match snd inc with
-                | Some pre => render_rel (pre ++ dir_of (fst rx))
+                | Some pre => join_pkg pre (dir_of (fst rx))
                 | None => pkg_or_unknown (dir_of (a ++ fst rx))
                 end))
-            (filter (fun rx => is_proto_file (snd rx) && negb (has_go_package (snd rx))) (below n))
+            (filter (fun rx => is_proto_file (snd rx) && negb (gp (snd rx))) (below n))
     | None => []
     end.
 
+  (* the specification: protos that do not *declare* the option ([declares_go_package] of
+     ProtoLex.v, on the file's content) *)
+  Definition spec_mappings_of := mappings_by node_declares.
   Definition spec_mappings (cfg : config) (pl : plugin) : list (path * string) :=
     if requested cfg pl then flat_map (spec_mappings_of cfg) (include_paths cfg) else [].
+
+  (* the same with the code's own decider, the line scan: what the code is proved to produce.
+     The two coincide on trees whose proto files the scan classifies correctly
+     ([tree_agreesb]; ProtoProofs.spec_scan_mappings). *)
+  Definition scan_mappings_of := mappings_by has_go_package.
+  Definition scan_mappings (cfg : config) (pl : plugin) : list (path * string) :=
+    if requested cfg pl then flat_map (scan_mappings_of cfg) (include_paths cfg) else [].
+
+  (* input domain of the mapping clause: the line scan is right about every *.proto file *)
+  Fixpoint tree_agreesb (n : node) : bool :=
+    match n with
+    | File s c r => negb (is_proto_file n) || scan_agrees c
+    | Dir _ ch => forallb tree_agreesb ch
+    end.
 
   (* ---------------------------------------------------------------- projections of an argv *)
   Definition files_of (argv : list arg) : list pspec :=
